@@ -449,7 +449,8 @@ class Engine(ValueOps, ExprOps, CallOps, StmtOps):
             elif con.returns == 'none':
                 res = self.const(None)
             else:
-                res = self.fresh_typed('res_' + fi.node.name, con.returns)
+                rty = con.returns(env) if callable(con.returns) else con.returns
+                res = self.fresh_typed('res_' + fi.node.name, rty)
                 if con.fresh and res.kind == 'list':
                     q = mk_select(self.seqheap(), res.term)
                     res = SV('list', seq=q, owned=True, ty=res.ty)
